@@ -5,15 +5,22 @@
 (* The adversary (a Byzantine proposer holding every validator key it needs for the class at    *)
 (* hand) starts from the block an honest proposer would build (Good) and tampers with it:       *)
 (* TamperField / TamperSlot, at most MaxMal malformations, in a canonical order (positions      *)
-(* ascending) so that every malformed block is reached exactly once.  Validate(r, vb, vc) is    *)
-(* the call of the code:                                                                        *)
-(*   r  = ConsensusState.ValidateBlock      gemmill/consensus/pbft/state.go                     *)
-(*   vb = Block.ValidateBasic               gemmill/types/block.go                              *)
-(*   vc = ValidatorSet.VerifyCommit on block.LastCommit   gemmill/types/validator_set.go        *)
-(* each TRANSCRIBED from the code in program order (result = name of the first failing check).  *)
-(* Decl is the property-level definition of a valid block, written without looking at the code. *)
-(* TLC compares the two over the whole malformation space (CodeEqualsDecl) and checks the       *)
-(* one-directional consequences C02 is about.                                                   *)
+(* ascending) so that every malformed block is reached exactly once.  The calls of the code:    *)
+(*   CallValidateBlock(r)  ConsensusState.ValidateBlock   gemmill/consensus/pbft/state.go       *)
+(*   CallValidateBasic(r)  Block.ValidateBasic            gemmill/types/block.go                *)
+(*   CallVerifyCommit(r)   ValidatorSet.VerifyCommit on block.LastCommit   types/validator_set.go *)
+(* are each TRANSCRIBED from the code in program order (r = name of the first failing check,    *)
+(* "ok" = nil error).  Decl is the property-level definition of a valid block, written without  *)
+(* looking at the code.  TLC compares the two over the whole malformation space                 *)
+(* (CodeEqualsDecl) and checks the one-directional consequences C02 is about.                   *)
+(*                                                                                              *)
+(* As found, the code differed from Decl in three places (all repaired, see KNOWN_FINDINGS):    *)
+(* Header.ValidatorsHash was compared with nothing (CheckVHash = FALSE models that), a nil      *)
+(* Header/Data/LastCommit and a commit holding only nil slots made the checks panic.            *)
+(* Oddities kept as they are: block time is not checked (TODO in the code); ProposerAddress may *)
+(* be any validator, not the round's proposer; Commit.BlockID is only required to be non-zero;  *)
+(* ValidatorIndex / ValidatorAddress of a precommit are neither signed nor compared with the    *)
+(* slot ("relabelled" votes count - the slot's key still has to verify the signature).          *)
 EXTENDS Integers, FiniteSets, Sequences, TLC
 
 CONSTANTS
